@@ -9,6 +9,21 @@ def repo_commits(prefix):
     return [l.split()[0] for l in out.splitlines() if l.split(" ", 1)[1].startswith(prefix)]
 
 CHECKS = {
+    "C17": dict(
+        engine="s3sim", category="exploration", design_ref="DESIGN.md §4 C17",
+        technique="deterministic simulation with fault injection: the four public list/download calls against a randomly filled reference bucket served by an in-process S3 endpoint behind the reqwest::get seam; response faults (status codes, request failure, mid-body cut, garbled XML, bad Size/LastModified, missing headers); reference bucket and request log as oracles",
+        text="Each case is one call of archive::{list_files,download_file} or realtime::{list_chunks_in_volume,download_chunk} against a bucket of 0..1001 objects whose keys carry XML-special, non-ASCII, URL-special (listings) characters and '/', with sizes up to 2^64-1 and both LastModified formats. Fault-free batch: listing = bucket order, final path segment, LastModified; truncated archive listing = error; download = stored bytes, Last-Modified, identifier asked for; the endpoint's log shows exactly one request for the expected key/prefix on the right bucket. Fault batch, relaxed narrowly: 404 -> not-found error, other non-200 download -> error, bad Size -> error, request failure / cut body -> error, garbled listing -> value or error, never a panic. Sampling.",
+        note="Trusted: the endpoint's S3 semantics (byte-order keys, string prefix, max-keys/IsTruncated, XML escaping, percent-decoding). Keys used for downloads are limited to the characters the statement lists."),
+    "C18": dict(
+        engine="s3sim", category="exploration", design_ref="DESIGN.md §4 C18",
+        technique="deterministic simulation with fault injection: the real poll_chunks under tokio's paused clock against a simulated rotating bucket, uploader (attempt-adaptive / time-scripted) and scripted consumer; transport faults, clock skew, stop/drop at every scheduling point; online and history oracles; seeded search with tape minimisation and replay",
+        text="One polling session per run: start directory biased to 997/998/999/1/2, 1..55 chunks present, 0..997 older volumes; chunks become visible after 0/1/2 failed attempts, at scripted times (4/7/11 s, bursts, long gaps) or never; consumer stops / drops the chunk or stats receiver after k deliveries; transient 404, 5xx/403, request failures, body cuts, listing 5xx, latency, slow bodies, one start-up fault, clock skew/jump. Oracle: first delivery inside the linearisation window of 'newest chunk', strictly advancing series with 999->1 wrap, payload/key/upload time of every delivery against the reference bucket, Ok only after stop with <= 1 later delivery, PollingAsyncError only with a dropped receiver, ExpectedChunkNotFound only after >= 3 failed attempts, start-up errors only with an injected cause, bounded virtual-time liveness, no panic. Thorough adds complete rotations through all 999 directories. Sampling of schedules and fault sequences; evidence, not proof.",
+        note="Trusted: history model (55-chunk volumes, a directory about to be reused is empty, second-resolution monotone Last-Modified), tokio's paused clock, the scripted consumer acting only at transport scheduling points (the poller touches its channels only there). A response that never arrives is not injected."),
+    "C19": dict(
+        engine="s3sim", category="exploration", design_ref="DESIGN.md §4 C19",
+        technique="deterministic simulation as history source + executable reference model: timing histories recorded from simulated polling sessions (and seeded synthetic ones) replayed step by step through the public API next to a 40-line reference model; simulated clock for identifiers without upload time",
+        text="Histories (cut list, previous sequence, duration, attempts) come from simulated polling sessions under faults and from a seeded generator reaching the quantifier's bounds (0..32 cuts x both resolutions, sequences to 200, 50 samples per key, 0..60 s, 1..5 attempts); after every add_timing the statistics (sorted), the estimates with and without history and the chunk-to-cut mapping are compared with the model; estimates are never earlier than the previous upload time. Weakest fit for the technique: no fault or schedule can change these functions, the simulation only supplies histories (said so in the evidence).",
+        note="Trusted: the reference model's reading of the statement ((floor(mean attempts) - 1) s adjustment; sample keyed by the following chunk's characteristics)."),
     "C03": dict(
         engine="streamsim", category="fault_enumeration", design_ref="DESIGN.md §4 C03",
         technique="deterministic simulation: message streams from reference ICD encoders served through a simulated storage device (short reads, EINTR, end of file at every byte) to the real decode_messages / Record::messages, compared with the reference record",
